@@ -1,9 +1,10 @@
 (* Defrag/Proofs.v -- lemmas about Defrag/Model.v and Defrag/Spec.v.
    A: lists indexed by N        B: ranges (IpFragRange::merge)
    C: retain_merge              D: case analysis of add, no panic
-   E: the invariant Inv         F: simulation Model / Spec outside the known class F8
+   E: the invariant Inv         F: simulation Model / Spec (every history)
    G: completeness, payload     H: delivery histories, fragments of one payload, cuts, rejects
    P: the pool (isolation of streams) *)
+From Coq Require Import Permutation.
 From EP Require Import Base.Bytes Defrag.Spec Defrag.Model.
 Local Open Scope N_scope.
 
@@ -318,7 +319,27 @@ Definition add_result (b : buf) (f : frag) (ns : range) (kept : list range) : bu
 Definition accepts (b : buf) (f : frag) : Prop :=
   f_endp f <= 65535 /\
   (f_mf f = true -> len (f_data f) mod 8 = 0) /\
-  (forall prev, b_end b = Some prev -> f_endp f <= prev /\ (f_mf f = false -> f_endp f = prev)).
+  (forall prev, b_end b = Some prev -> f_endp f <= prev /\ (f_mf f = false -> f_endp f = prev)) /\
+  (b_end b = None -> f_mf f = false -> forall r, In r (b_sections b) -> r_end r <= f_endp f).
+
+(* iter().map(|s| s.end).max() *)
+Lemma sec_max_spec l :
+  match sec_max l with
+  | None => l = []
+  | Some m => (forall r, In r l -> r_end r <= m) /\ exists r, In r l /\ r_end r = m
+  end.
+Proof.
+  induction l as [|a t IH]; cbn [sec_max]; [reflexivity|].
+  destruct (sec_max t) as [m|].
+  - destruct IH as [IH1 (r0 & Hr0 & IH2)]. split.
+    + intros r [Hr|Hr]; [subst r; lia|]. specialize (IH1 r Hr). lia.
+    + destruct (N.max_spec (r_end a) m) as [[_ Q]|[_ Q]].
+      * exists r0. split; [right; exact Hr0|lia].
+      * exists a. split; [left; reflexivity|lia].
+  - subst t. split.
+    + intros r [Hr|[]]. subst r. lia.
+    + exists a. split; [left; reflexivity|reflexivity].
+Qed.
 
 Lemma len_written b f : len (written b f) = N.max (len (b_data b)) (f_endp f).
 Proof.
@@ -332,6 +353,10 @@ Lemma add_cases b f :
   (f_endp f <= 65535 /\ (f_mf f = true -> len (f_data f) mod 8 = 0) /\
      exists prev, b_end b = Some prev /\ (prev < f_endp f \/ (f_mf f = false /\ f_endp f <> prev)) /\
      add b f = AddErr (VConflict prev (f_endp f))) \/
+  (f_endp f <= 65535 /\ b_end b = None /\ f_mf f = false /\
+     exists r, In r (b_sections b) /\ (forall r', In r' (b_sections b) -> r_end r' <= r_end r) /\
+     f_endp f < r_end r /\
+     add b f = AddErr (VConflict (r_end r) (f_endp f))) \/
   (accepts b f /\ exists ns kept,
      retain_merge (mkRange (f_off f) (f_endp f)) (b_sections b) = (ns, kept) /\
      add b f = AddOk (add_result b f ns kept)).
@@ -347,15 +372,19 @@ Proof.
     + destruct (b_end b) as [prev|] eqn:Ee.
       * rewrite orb_false_r. destruct (N.ltb_spec prev (f_endp f)) as [H3|H3].
         -- right. right. left. split; [exact H1|]. split; [auto|]. exists prev. auto.
-        -- right. right. right. split.
-           { split; [exact H1|]. split; [auto|]. intros p Hp. rewrite Ee in Hp. inversion Hp; subst. split; [exact H3|rewrite Emf; discriminate]. }
+        -- right. right. right. right. split.
+           { split; [exact H1|]. split; [auto|]. split.
+             - intros p Hp. rewrite Ee in Hp. inversion Hp; subst. split; [exact H3|rewrite Emf; discriminate].
+             - intros Q. rewrite Ee in Q. discriminate. }
            pose proof (len_written b f) as LW. unfold written in LW.
            destruct (N.ltb_spec (len (grow (b_data b) (f_endp f))) (f_endp f)) as [H4|H4].
            { rewrite len_grow in H4. unfold f_endp in *. lia. }
            destruct (retain_merge (mkRange (f_off f) (f_endp f)) (b_sections b)) as [ns kept] eqn:Erm.
            exists ns, kept. split; [reflexivity|]. unfold add_result, written. rewrite Emf, Ee. reflexivity.
-      * right. right. right. split.
-        { split; [exact H1|]. split; [auto|]. intros p Hp. rewrite Ee in Hp. discriminate. }
+      * right. right. right. right. split.
+        { split; [exact H1|]. split; [auto|]. split.
+          - intros p Hp. rewrite Ee in Hp. discriminate.
+          - intros _ Q. rewrite Emf in Q. discriminate. }
         destruct (N.ltb_spec (len (grow (b_data b) (f_endp f))) (f_endp f)) as [H4|H4].
         { rewrite len_grow in H4. unfold f_endp in *. lia. }
         destruct (retain_merge (mkRange (f_off f) (f_endp f)) (b_sections b)) as [ns kept] eqn:Erm.
@@ -384,20 +413,36 @@ Proof.
     + destruct (N.ltb_spec prev (f_endp f)) as [H3|H3]; cbn [orb].
       * right. right. left. split; [exact H1|]. split; [intros Q; try rewrite Emf in Q; discriminate|]. exists prev. auto.
       * destruct (N.eqb_spec (f_endp f) prev) as [H6|H6]; cbn [negb].
-        -- right. right. right. split.
-           { split; [exact H1|]. split; [intros Q; try rewrite Emf in Q; discriminate|]. intros p Hp. rewrite Ee in Hp. inversion Hp; subst p. split; [lia|intros _; exact H6]. }
+        -- right. right. right. right. split.
+           { split; [exact H1|]. split; [intros Q; try rewrite Emf in Q; discriminate|]. split.
+             - intros p Hp. rewrite Ee in Hp. inversion Hp; subst p. split; [lia|intros _; exact H6].
+             - intros Q. rewrite Ee in Q. discriminate. }
            destruct (retain_merge (mkRange (f_off f) (f_endp f)) (b_sections b)) as [ns kept] eqn:Erm.
            exists ns, kept. split; reflexivity.
         -- right. right. left. split; [exact H1|]. split; [intros Q; try rewrite Emf in Q; discriminate|]. exists prev. auto.
-    + right. right. right. split.
-      { split; [exact H1|]. split; [intros Q; try rewrite Emf in Q; discriminate|]. intros p Hp. rewrite Ee in Hp. discriminate. }
-      destruct (retain_merge (mkRange (f_off f) (f_endp f)) (b_sections b)) as [ns kept] eqn:Erm.
-      exists ns, kept. split; reflexivity.
+    + pose proof (sec_max_spec (b_sections b)) as SM.
+      destruct (sec_max (b_sections b)) as [m|].
+      * destruct SM as [SM1 (r & Hr & SM2)]. subst m.
+        destruct (N.ltb_spec (f_endp f) (r_end r)) as [H7|H7].
+        -- right. right. right. left. split; [exact H1|]. split; [reflexivity|]. split; [reflexivity|].
+           exists r. auto.
+        -- right. right. right. right. split.
+           { split; [exact H1|]. split; [intros Q; try rewrite Emf in Q; discriminate|]. split.
+             - intros p Hp. rewrite Ee in Hp. discriminate.
+             - intros _ _ r' Hr'. specialize (SM1 r' Hr'). lia. }
+           destruct (retain_merge (mkRange (f_off f) (f_endp f)) (b_sections b)) as [ns kept] eqn:Erm.
+           exists ns, kept. split; reflexivity.
+      * right. right. right. right. split.
+        { split; [exact H1|]. split; [intros Q; try rewrite Emf in Q; discriminate|]. split.
+          - intros p Hp. rewrite Ee in Hp. discriminate.
+          - intros _ _ r' Hr'. rewrite SM in Hr'. destruct Hr'. }
+        destruct (retain_merge (mkRange (f_off f) (f_endp f)) (b_sections b)) as [ns kept] eqn:Erm.
+        exists ns, kept. split; reflexivity.
 Qed.
 
 Lemma add_never_panics b f : add b f <> AddPanic.
 Proof.
-  destruct (add_cases b f) as [[_ H]|[(_ & _ & _ & H)|[(_ & _ & p & _ & _ & H)|(_ & ns & k & _ & H)]]];
+  destruct (add_cases b f) as [[_ H]|[(_ & _ & _ & H)|[(_ & _ & p & _ & _ & H)|[(_ & _ & _ & r & _ & _ & _ & H)|(_ & ns & k & _ & H)]]]];
     rewrite H; discriminate.
 Qed.
 (* ---------- E: the invariant ---------- *)
@@ -408,11 +453,12 @@ Record Inv (b : buf) : Prop := mkInv {
              exists v, dget (b_data b) i = Some (Some v);
   inv_none : forall i, i < len (b_data b) -> ~ covered (b_sections b) i ->
              dget (b_data b) i = Some None;
-  inv_len : match b_end b with
-            | Some E => len (b_data b) = E /\ exists r, In r (b_sections b) /\ E <= r_end r
-            | None => (forall r, In r (b_sections b) -> r_end r <= len (b_data b)) /\
-                      (len (b_data b) = 0 \/ exists r, In r (b_sections b) /\ r_end r = len (b_data b))
-            end;
+  (* every section ends within data; data is empty or ends where the last section
+     ends; once the total length is known, data has exactly that length *)
+  inv_len : (forall r, In r (b_sections b) -> r_end r <= len (b_data b)) /\
+            (len (b_data b) = 0 \/ exists r, In r (b_sections b) /\ r_end r = len (b_data b)) /\
+            (forall E, b_end b = Some E ->
+               len (b_data b) = E /\ exists r, In r (b_sections b) /\ r_end r = E);
   inv_max : len (b_data b) <= 65535 /\ forall r, In r (b_sections b) -> r_end r <= 65535
 }.
 
@@ -423,7 +469,7 @@ Proof.
   - constructor.
   - intros i H. try rewrite len_nil in H; lia.
   - intros i H. try rewrite len_nil in H; lia.
-  - split; [intros r []|left; reflexivity].
+  - split; [intros r []|]. split; [left; reflexivity|]. intros E HE. discriminate.
   - split; [try rewrite len_nil; lia|intros r []].
 Qed.
 
@@ -456,14 +502,12 @@ Lemma written_inv b f ns kept : Inv b -> accepts b f ->
   (forall i, i < len (written b f) -> ~ covered (kept ++ [ns]) i ->
      dget (written b f) i = Some None).
 Proof.
-  intros I (A1 & A2 & A3) E.
+  intros I (A1 & A2 & A3 & A4) E.
   assert (Hw0 : wf (mkRange (f_off f) (f_endp f))) by (unfold wf, f_endp; cbn; lia).
   destruct (rm_basic _ _ _ _ E Hw0 (inv_wf b I)) as (W & Hin & Hs & He & Hab & Hmax & Hcov).
   assert (Hlen : forall i, i < len (written b f) -> covered (b_sections b) i -> i < len (b_data b)).
-  { intros i Hi (r & Hr & Hri). rewrite len_written in Hi.
-    pose proof (inv_len b I) as L. destruct (b_end b) as [E0|].
-    - destruct L as [L _]. destruct (A3 E0 eq_refl) as [Q _]. lia.
-    - destruct L as [L _]. specialize (L r Hr). unfold inr in Hri. lia. }
+  { intros i Hi (r & Hr & Hri).
+    pose proof (inv_len b I) as (L & _). specialize (L r Hr). unfold inr in Hri. lia. }
   assert (Hc : forall i, covered (kept ++ [ns]) i <-> (f_off f <= i < f_endp f) \/ covered (b_sections b) i).
   { intros i. rewrite covered_snoc. rewrite Hcov. unfold inr. cbn [r_start r_end]. tauto. }
   split.
@@ -487,11 +531,11 @@ Qed.
 Lemma add_preserves_Inv b f b' : Inv b -> add b f = AddOk b' -> Inv b'.
 Proof.
   intros I Hadd.
-  destruct (add_cases b f) as [[_ H]|[(_ & _ & _ & H)|[(_ & _ & p & _ & _ & H)|(Acc & ns & kept & E & H)]]];
+  destruct (add_cases b f) as [[_ H]|[(_ & _ & _ & H)|[(_ & _ & p & _ & _ & H)|[(_ & _ & _ & r & _ & _ & _ & H)|(Acc & ns & kept & E & H)]]]];
     rewrite H in Hadd; try discriminate.
   inversion Hadd; subst b'; clear Hadd H.
   destruct (written_inv b f ns kept I Acc E) as [WS WN].
-  destruct Acc as (A1 & A2 & A3).
+  destruct Acc as (A1 & A2 & A3 & A4).
   assert (Hw0 : wf (mkRange (f_off f) (f_endp f))) by (unfold wf, f_endp; cbn; lia).
   destruct (rm_basic _ _ _ _ E Hw0 (inv_wf b I)) as (W & Hin & Hs & He & Hab & Hmax & Hcov).
   destruct (rm_sep _ _ _ _ E Hw0 (inv_wf b I) (inv_sep b I)) as [Fk Dk].
@@ -511,25 +555,34 @@ Proof.
   - destruct (f_mf f); [exact WN|].
     intros i Hi Hc. rewrite len_take in Hi. rewrite dget_take.
     destruct (N.ltb_spec i (f_endp f)); [|lia]. apply WN; [lia|exact Hc].
-  - destruct (f_mf f).
-    + destruct (b_end b) as [E0|].
-      * destruct L as [L1 (r & Hr & L2)]. destruct (A3 E0 eq_refl) as [Q _]. split; [lia|].
+  - destruct L as (L1 & L2 & L3).
+    (* a final fragment never shortens the data *)
+    assert (Hfin : f_mf f = false -> len (b_data b) <= f_endp f).
+    { intros Hm. destruct (b_end b) as [E0|] eqn:Ee.
+      - destruct (A3 E0 eq_refl) as [_ Q]. rewrite (proj1 (L3 E0 eq_refl)). specialize (Q Hm). lia.
+      - destruct L2 as [L2|(r & Hr & L2)]; [lia|]. specialize (A4 eq_refl Hm r Hr). lia. }
+    assert (Hnse : r_end ns <= N.max (len (b_data b)) (f_endp f)).
+    { destruct Hmax as [Q|(x & Hx & Q)]; [lia|]. specialize (L1 x Hx). lia. }
+    assert (Hdlen : len (if f_mf f then written b f else take (f_endp f) (written b f))
+                    = N.max (len (b_data b)) (f_endp f)).
+    { destruct (f_mf f) eqn:Em; [exact LW|]. rewrite len_take, LW. specialize (Hfin eq_refl). lia. }
+    rewrite Hdlen. split; [|split].
+    + intros r Hr. apply in_app_or in Hr. destruct Hr as [Hr|[Hr|[]]].
+      * specialize (L1 r (Hin r Hr)). lia.
+      * subst r. exact Hnse.
+    + right. destruct (N.le_gt_cases (len (b_data b)) (f_endp f)) as [C|C].
+      * exists ns. split; [apply in_or_app; right; left; reflexivity|lia].
+      * destruct L2 as [L2|(r & Hr & L2)]; [lia|].
         destruct (Hab r Hr) as [Hk|[_ Hk]].
-        -- exists r. split; [apply in_or_app; left; exact Hk|exact L2].
+        -- exists r. split; [apply in_or_app; left; exact Hk|lia].
         -- exists ns. split; [apply in_or_app; right; left; reflexivity|lia].
-      * destruct L as [L1 L2]. split.
-        -- intros r Hr. apply in_app_or in Hr. destruct Hr as [Hr|[Hr|[]]].
-           ++ specialize (L1 r (Hin r Hr)). lia.
-           ++ subst r. destruct Hmax as [Q|(x & Hx & Q)]; [lia|]. specialize (L1 x Hx). lia.
-        -- right. destruct (N.le_gt_cases (len (b_data b)) (f_endp f)) as [C|C].
-           ++ exists ns. split; [apply in_or_app; right; left; reflexivity|].
-              destruct Hmax as [Q|(x & Hx & Q)]; [lia|]. specialize (L1 x Hx). lia.
-           ++ destruct L2 as [L2|(r & Hr & L2)]; [lia|].
-              destruct (Hab r Hr) as [Hk|[_ Hk]].
-              ** exists r. split; [apply in_or_app; left; exact Hk|lia].
-              ** exists ns. split; [apply in_or_app; right; left; reflexivity|].
-                 destruct Hmax as [Q|(x & Hx & Q)]; [lia|]. specialize (L1 x Hx). lia.
-    + rewrite len_take. split; [lia|]. exists ns. split; [apply in_or_app; right; left; reflexivity|lia].
+    + intros E0 HE. destruct (f_mf f) eqn:Em.
+      * destruct (L3 E0 HE) as [L3a (r & Hr & L3b)]. destruct (A3 E0 HE) as [Q _]. split; [lia|].
+        destruct (Hab r Hr) as [Hk|[_ Hk]].
+        -- exists r. split; [apply in_or_app; left; exact Hk|exact L3b].
+        -- exists ns. split; [apply in_or_app; right; left; reflexivity|lia].
+      * inversion HE; subst E0. specialize (Hfin eq_refl). split; [lia|].
+        exists ns. split; [apply in_or_app; right; left; reflexivity|lia].
   - split.
     + destruct (f_mf f); [|rewrite len_take]; lia.
     + intros r Hr. apply in_app_or in Hr. destruct Hr as [Hr|[Hr|[]]].
@@ -556,7 +609,7 @@ Proof.
   intros I C i Hi. unfold is_complete in C. pose proof (inv_len b I) as L.
   destruct (b_end b) as [E0|]; [|discriminate].
   destruct (b_sections b) as [|r [|r2 t]] eqn:Es; try discriminate.
-  apply N.eqb_eq in C. destruct L as [L1 (r' & [Hr|[]] & L2)]. subst r'.
+  apply N.eqb_eq in C. destruct L as (L1 & [L2|(r' & [Hr|[]] & L2)] & L3); [lia|]. subst r'.
   apply (inv_some b I); [exact Hi|]. rewrite Es. exists r. split; [left; reflexivity|].
   unfold inr. lia.
 Qed.
@@ -566,8 +619,7 @@ Record Rel (b : buf) (st : rstate) : Prop := mkRel {
   rel_end : b_end b = s_end st;
   rel_data : forall i, i < len (b_data b) -> dget (b_data b) i = Some (lookup (s_frags st) i);
   rel_hi : hi (s_frags st) <= len (b_data b);
-  rel_len : b_end b = None -> len (b_data b) = hi (s_frags st);
-  rel_secs : forall r, In r (b_sections b) -> r_end r <= len (b_data b)
+  rel_len : b_end b = None -> len (b_data b) = hi (s_frags st)
 }.
 
 Lemma lookup_lt_hi : forall fs i v, lookup fs i = Some v -> i < hi fs.
@@ -591,7 +643,6 @@ Proof.
   - cbn. intros i H. lia.
   - cbn. lia.
   - reflexivity.
-  - unfold buf_new; cbn [b_sections]. intros r [].
 Qed.
 
 Definition push (st : rstate) (f : frag) (e : option N) : rstate :=
@@ -605,23 +656,24 @@ Proof.
   intros R Acc E Hlate.
   assert (I' : Inv (add_result b f ns kept)).
   { apply (add_preserves_Inv b f); [apply (rel_inv _ _ R)|].
-    destruct (add_cases b f) as [[Q _]|[(_ & Q1 & Q2 & _)|[(_ & _ & p & Qe & Q & _)|(_ & ns0 & k0 & E0 & H)]]].
+    destruct (add_cases b f) as [[Q _]|[(_ & Q1 & Q2 & _)|[(_ & _ & p & Qe & Q & _)|[(_ & Qe & Qm & r & Hr & _ & Q & _)|(_ & ns0 & k0 & E0 & H)]]]].
     - destruct Acc as (A1 & _). lia.
     - destruct Acc as (_ & A2 & _). specialize (A2 Q1). lia.
-    - destruct Acc as (_ & _ & A3). destruct (A3 p Qe) as [Q3 Q4]. destruct Q as [Q|[Q Q']]; [lia|]. specialize (Q4 Q). lia.
+    - destruct Acc as (_ & _ & A3 & _). destruct (A3 p Qe) as [Q3 Q4]. destruct Q as [Q|[Q Q']]; [lia|]. specialize (Q4 Q). lia.
+    - destruct Acc as (_ & _ & _ & A4). specialize (A4 Qe Qm r Hr). lia.
     - rewrite E in E0. inversion E0; subst. exact H. }
   pose proof (rel_inv _ _ R) as I.
-  destruct Acc as (A1 & A2 & A3).
+  destruct Acc as (A1 & A2 & A3 & A4).
   assert (Hw0 : wf (mkRange (f_off f) (f_endp f))) by (unfold wf, f_endp; cbn; lia).
   destruct (rm_basic _ _ _ _ E Hw0 (inv_wf b I)) as (W & Hin & Hs & He & Hab & Hmax & Hcov).
   cbn [r_start r_end] in *.
   pose proof (len_written b f) as LW.
   pose proof (rel_hi _ _ R) as RH. pose proof (rel_end _ _ R) as RE.
   pose proof (inv_len b I) as L.
-  (* the final fragment never shortens the data outside the known class *)
+  (* the final fragment never shortens the data *)
   assert (Hfin : f_mf f = false -> len (b_data b) <= f_endp f).
   { intros Hm. destruct (b_end b) as [E0|] eqn:Ee.
-    - destruct L as [L _]. destruct (A3 E0 eq_refl) as [_ Q]. specialize (Q Hm). lia.
+    - destruct L as (_ & _ & L). rewrite (proj1 (L E0 eq_refl)). destruct (A3 E0 eq_refl) as [_ Q]. specialize (Q Hm). lia.
     - rewrite (rel_len _ _ R Ee). apply Hlate; [exact Hm|reflexivity]. }
   assert (Hlen' : len (b_data (add_result b f ns kept)) = len (written b f)).
   { unfold add_result; cbn [b_data]. destruct (f_mf f) eqn:Em; [reflexivity|].
@@ -648,22 +700,25 @@ Proof.
   - intros Hn. rewrite Hlen', LW. unfold push; cbn [s_frags hi]. fold (f_endp f).
     unfold add_result in Hn; cbn [b_end] in Hn. destruct (f_mf f); [|discriminate].
     rewrite (rel_len _ _ R Hn). lia.
-  - intros r Hr. rewrite Hlen', LW. unfold add_result in Hr; cbn [b_sections] in Hr.
-    apply in_app_or in Hr. destruct Hr as [Hr|[Hr|[]]].
-    + pose proof (rel_secs _ _ R r (Hin r Hr)). lia.
-    + subst r. destruct Hmax as [Q|(x & Hx & Q)]; [lia|].
-      pose proof (rel_secs _ _ R x Hx). lia.
 Qed.
 
-(* one delivery: same verdict, related states -- unless the Spec says "late end" (F8) *)
+(* with the total length unknown, the largest section end is the largest offset received *)
+Lemma Rel_hi_max b st r : Rel b st -> b_end b = None -> In r (b_sections b) ->
+  (forall r', In r' (b_sections b) -> r_end r' <= r_end r) -> hi (s_frags st) <= r_end r.
+Proof.
+  intros R Ee Hr Hmax. rewrite <- (rel_len _ _ R Ee).
+  destruct (inv_len b (rel_inv _ _ R)) as (_ & [L|(r0 & Hr0 & L)] & _); [lia|].
+  specialize (Hmax r0 Hr0). lia.
+Qed.
+
+(* one delivery: same verdict, related states *)
 Lemma sim_step b st f : Rel b st ->
-  is_late (fst (spec_add st f)) = false ->
   fst (model_step b f) = fst (spec_add st f) /\
   Rel (snd (model_step b f)) (snd (spec_add st f)).
 Proof.
-  intros R Hl. pose proof (rel_end _ _ R) as RE.
+  intros R. pose proof (rel_end _ _ R) as RE.
   unfold model_step.
-  destruct (add_cases b f) as [[Q H]|[(Q0 & Q1 & Q2 & H)|[(Q0 & Q1 & p & Qe & Q & H)|(Acc & ns & kept & E & H)]]];
+  destruct (add_cases b f) as [[Q H]|[(Q0 & Q1 & Q2 & H)|[(Q0 & Q1 & p & Qe & Q & H)|[(Q0 & Qe & Qm & r & Hr & Hrmax & Q & H)|(Acc & ns & kept & E & H)]]]];
     rewrite H; cbn [fst snd]; unfold spec_add in *; unfold MAX_DEFRAG_LEN in *.
   - destruct (N.ltb_spec 65535 (f_endp f)); [|lia]. cbn [fst snd]. auto.
   - destruct (N.ltb_spec 65535 (f_endp f)); [lia|]. rewrite Q1. cbn [andb].
@@ -677,7 +732,14 @@ Proof.
       - destruct (N.ltb_spec p (f_endp f)); [reflexivity|lia].
       - rewrite Qm. destruct (N.eqb_spec (f_endp f) p); [lia|]. apply orb_true_r. }
     rewrite Hc. cbn [fst snd]. auto.
-  - pose proof Acc as (A1 & A2 & A3).
+  - (* the final fragment ends below stored data *)
+    destruct (N.ltb_spec 65535 (f_endp f)); [lia|].
+    rewrite Qm. cbn [andb]. rewrite <- RE, Qe.
+    pose proof (Rel_hi_max b st r R Qe Hr Hrmax) as Hh.
+    pose proof (proj1 (inv_len b (rel_inv _ _ R)) r Hr) as Hh'. rewrite (rel_len _ _ R Qe) in Hh'.
+    replace (hi (s_frags st)) with (r_end r) by lia.
+    destruct (N.ltb_spec (f_endp f) (r_end r)); [|lia]. cbn [fst snd]. auto.
+  - pose proof Acc as (A1 & A2 & A3 & A4).
     destruct (N.ltb_spec 65535 (f_endp f)); [lia|].
     assert (Hal : f_mf f && negb (len (f_data f) mod 8 =? 0) = false).
     { destruct (f_mf f); [|reflexivity]. rewrite (A2 eq_refl). reflexivity. }
@@ -696,9 +758,12 @@ Proof.
     + pose proof (Rel_push b st f ns kept R Acc E) as RP. rewrite <- RE, Ee in RP.
       destruct (f_mf f) eqn:Em.
       * cbn [fst snd]. split; [reflexivity|]. apply RP. discriminate.
-      * destruct (N.ltb_spec (f_endp f) (hi (s_frags st))) as [C|C].
-        -- cbn [fst is_late] in Hl. discriminate.
-        -- cbn [fst snd]. split; [reflexivity|]. apply RP. intros _ _. exact C.
+      * assert (C : hi (s_frags st) <= f_endp f).
+        { rewrite <- (rel_len _ _ R Ee).
+          destruct (inv_len b (rel_inv _ _ R)) as (_ & [L|(r0 & Hr0 & L)] & _); [lia|].
+          specialize (A4 eq_refl eq_refl r0 Hr0). lia. }
+        destruct (N.ltb_spec (f_endp f) (hi (s_frags st))) as [C'|C']; [lia|].
+        cbn [fst snd]. split; [reflexivity|]. apply RP. intros _ _. exact C.
 Qed.
 (* ---------- G: completeness and payload ---------- *)
 Lemma nth_nseq_from : forall k s m,
@@ -753,13 +818,12 @@ Proof.
   pose proof (rel_end _ _ R) as RE.
   destruct (spec_complete st) eqn:Sc.
   - apply spec_complete_iff in Sc. destruct Sc as (E & HE & Hall).
-    rewrite <- RE in HE. rewrite HE in L. destruct L as [L1 (r0 & Hr0 & L2)].
+    rewrite <- RE in HE. destruct L as (Lsec & _ & L3). destruct (L3 E HE) as [L1 (r0 & Hr0 & Hr0e)].
     assert (Hcov : forall i, i < E -> covered (b_sections b) i).
     { intros i Hi. destruct (Hall i Hi) as [v Hv].
       assert (Hd : dget (b_data b) i = Some (Some v)) by (rewrite (rel_data _ _ R) by lia; rewrite Hv; reflexivity).
       destruct (covered_dec (b_sections b) i) as [C|C]; [exact C|].
       rewrite (inv_none b I i) in Hd by (try lia; exact C). discriminate. }
-    assert (Hr0e : r_end r0 = E) by (pose proof (rel_secs _ _ R r0 Hr0); lia).
     assert (Hr0w : wf r0) by (apply (inv_wf b I), Hr0).
     assert (Hdiff : forall r, In r (b_sections b) -> r = r0 \/ disj r r0).
     { intros r Hr. destruct (ForallOrdPairs_In (inv_sep b I) r r0 Hr Hr0) as [Q|[Q|Q]]; auto.
@@ -773,7 +837,7 @@ Proof.
       - unfold disj in Q1. lia. }
     assert (Hall_eq : forall r, In r (b_sections b) -> r = r0).
     { intros r Hr. destruct (Hdiff r Hr) as [Q|Q]; [exact Q|]. exfalso.
-      pose proof (inv_wf b I r Hr) as Wr. pose proof (rel_secs _ _ R r Hr) as Sr.
+      pose proof (inv_wf b I r Hr) as Wr. pose proof (Lsec r Hr) as Sr.
       unfold disj, wf in *. lia. }
     unfold is_complete. rewrite HE.
     destruct (b_sections b) as [|a [|a2 t]] eqn:Es.
@@ -788,10 +852,9 @@ Proof.
     apply spec_complete_iff. unfold is_complete in C.
     destruct (b_end b) as [E|] eqn:Ee; [|discriminate].
     destruct (b_sections b) as [|r [|r2 t]] eqn:Es; try discriminate.
-    apply N.eqb_eq in C. destruct L as [L1 (r' & [Hr|[]] & L2)]. subst r'.
+    apply N.eqb_eq in C. destruct L as (Lsec & _ & L3). destruct (L3 E eq_refl) as [L1 (r' & [Hr'|[]] & L2)]. subst r'.
     exists E. split; [congruence|]. intros i Hi.
     assert (Hr : In r (b_sections b)) by (rewrite Es; left; reflexivity).
-    pose proof (rel_secs _ _ R r Hr) as Sr.
     destruct (inv_some b I i) as [v Hv]; [lia| |].
     + exists r. split; [exact Hr|]. unfold inr. lia.
     + exists v. rewrite (rel_data _ _ R) in Hv by lia. congruence.
@@ -801,7 +864,8 @@ Lemma payload_agree b st : Rel b st -> is_complete b = true -> b_data b = spec_p
 Proof.
   intros R C. pose proof (rel_inv _ _ R) as I. pose proof (inv_len b I) as L.
   pose proof (rel_end _ _ R) as RE. unfold is_complete in C. unfold spec_payload.
-  destruct (b_end b) as [E|] eqn:Ee; [|discriminate]. rewrite <- RE. destruct L as [L _].
+  destruct (b_end b) as [E|] eqn:Ee; [|discriminate]. rewrite <- RE. destruct L as (_ & _ & L).
+  destruct (L E eq_refl) as [L1 _].
   apply dget_ext. intros i. rewrite dget_map, dget_nseq.
   destruct (N.ltb_spec i E) as [H|H]; cbn [option_map].
   - apply (rel_data _ _ R). lia.
@@ -814,25 +878,17 @@ Proof.
   destruct (is_complete b) eqn:C; [|reflexivity]. rewrite (payload_agree b st R C). reflexivity.
 Qed.
 
-Lemma refines_gen : forall h b st, Rel b st -> late_in st h = false ->
+Lemma refines_gen : forall h b st, Rel b st ->
   model_trace b h = spec_trace st h /\ Rel (model_run b h) (spec_run st h).
 Proof.
-  induction h as [|f h IH]; intros b st R Hl.
+  induction h as [|f h IH]; intros b st R.
   - split; [reflexivity|exact R].
-  - cbn [model_trace spec_trace late_in] in *. unfold model_run, spec_run. cbn [fold_left].
+  - cbn [model_trace spec_trace] in *. unfold model_run, spec_run. cbn [fold_left].
     pose proof (sim_step b st f R) as S.
     destruct (model_step b f) as [v b'] eqn:Em. destruct (spec_add st f) as [sv st'] eqn:Es.
-    cbn [fst snd] in *. apply orb_false_iff in Hl. destruct Hl as [Hl1 Hl2].
-    destruct (S Hl1) as [Hv R']. subst sv.
-    destruct (IH b' st' R' Hl2) as [Ht Hr].
+    cbn [fst snd] in *. destruct S as [Hv R']. subst sv.
+    destruct (IH b' st' R') as [Ht Hr].
     split; [|exact Hr]. rewrite (obs_agree v b' st' R'), Ht. reflexivity.
-Qed.
-
-Lemma late_in_app : forall h1 h2 st, late_in st (h1 ++ h2) = false -> late_in st h1 = false.
-Proof.
-  induction h1 as [|f h1 IH]; intros h2 st H; [reflexivity|].
-  cbn [late_in app] in *. destruct (spec_add st f) as [v st'].
-  apply orb_false_iff in H. destruct H as [H1 H2]. rewrite H1. cbn [orb]. eapply IH, H2.
 Qed.
 
 (* ---------- fragments of one payload: what the Spec does ---------- *)
@@ -924,18 +980,18 @@ Proof.
 Qed.
 
 Lemma spec_run_consistent P : len P <= 65535 -> forall h hs st, SInv P hs st -> Forall (frag_of P) h ->
-  SInv P (hs ++ h) (spec_run st h) /\ late_in st h = false /\
+  SInv P (hs ++ h) (spec_run st h) /\
   Forall (fun o : obs => fst (fst o) = VOk) (spec_trace st h).
 Proof.
   intros HP. induction h as [|f h IH]; intros hs st S F.
-  - rewrite app_nil_r. split; [exact S|]. split; [reflexivity|constructor].
+  - rewrite app_nil_r. split; [exact S|constructor].
   - inversion F as [|x l Ff Fh]; subst.
     destruct (spec_step_consistent P hs st f HP S Ff) as [Hv S'].
-    unfold spec_run. cbn [fold_left late_in spec_trace].
+    unfold spec_run. cbn [fold_left spec_trace].
     destruct (spec_add st f) as [v st'] eqn:Es. cbn [fst snd] in *. subst v.
-    destruct (IH (hs ++ [f]) st' S' Fh) as (S2 & L2 & T2).
+    destruct (IH (hs ++ [f]) st' S' Fh) as (S2 & T2).
     rewrite <- app_assoc in S2. cbn [app] in S2.
-    split; [exact S2|]. split; [exact L2|]. constructor; [reflexivity|exact T2].
+    split; [exact S2|]. constructor; [reflexivity|exact T2].
 Qed.
 
 Lemma SInv_lookup P hs st i v : SInv P hs st -> lookup (s_frags st) i = Some v -> rd P i = Some v.
@@ -981,18 +1037,16 @@ Lemma any_order P h ipn d0 s0 : len P <= 65535 -> Forall (frag_of P) h ->
   let b := model_run (buf_new ipn d0 s0) h in
   (is_complete b = true <-> Covered P h) /\
   (is_complete b = true -> b_data b = map Some P) /\
-  Forall (fun o : obs => fst (fst o) = VOk) (model_trace (buf_new ipn d0 s0) h) /\
-  ~ KnownClass h.
+  Forall (fun o : obs => fst (fst o) = VOk) (model_trace (buf_new ipn d0 s0) h).
 Proof.
   intros HP F b.
-  destruct (spec_run_consistent P HP h [] spec_new (SInv_new P) F) as (S & L & T). cbn [app] in S.
-  destruct (refines_gen h (buf_new ipn d0 s0) spec_new (Rel_new ipn d0 s0) L) as [Ht R].
-  fold b in R. split; [|split; [|split]].
+  destruct (spec_run_consistent P HP h [] spec_new (SInv_new P) F) as (S & T). cbn [app] in S.
+  destruct (refines_gen h (buf_new ipn d0 s0) spec_new (Rel_new ipn d0 s0)) as [Ht R].
+  fold b in R. split; [|split].
   - rewrite (complete_agree _ _ R). apply (SInv_complete _ _ _ S).
   - intros C. rewrite (payload_agree _ _ R C). apply (SInv_payload _ _ _ S).
     rewrite <- (complete_agree _ _ R). exact C.
   - rewrite Ht. exact T.
-  - unfold KnownClass. rewrite L. discriminate.
 Qed.
 
 Lemma Forall_firstn' {A} (Q : A -> Prop) : forall k l, Forall Q l -> Forall Q (firstn k l).
@@ -1058,7 +1112,7 @@ Lemma reject_toobig b f : 65535 < f_endp f ->
   model_step b f = (VTooBig (f_fo f) (len (f_data f)), b).
 Proof.
   intros H. unfold model_step.
-  destruct (add_cases b f) as [[Q E]|[(Q0 & Q1 & Q2 & E)|[(Q0 & Q1 & p & Qe & Q & E)|((A1 & _) & ns & kept & _ & E)]]];
+  destruct (add_cases b f) as [[Q E]|[(Q0 & Q1 & Q2 & E)|[(Q0 & Q1 & p & Qe & Q & E)|[(Q0 & _ & _ & r & _ & _ & _ & E)|((A1 & _) & ns & kept & _ & E)]]]];
     rewrite E; try reflexivity; lia.
 Qed.
 
@@ -1066,9 +1120,10 @@ Lemma reject_unaligned b f : f_endp f <= 65535 -> f_mf f = true -> len (f_data f
   model_step b f = (VUnaligned (f_fo f) (len (f_data f)), b).
 Proof.
   intros H Hm Hu. unfold model_step.
-  destruct (add_cases b f) as [[Q E]|[(Q0 & Q1 & Q2 & E)|[(Q0 & Q1 & p & Qe & Q & E)|((A1 & A2 & _) & ns & kept & _ & E)]]];
+  destruct (add_cases b f) as [[Q E]|[(Q0 & Q1 & Q2 & E)|[(Q0 & Q1 & p & Qe & Q & E)|[(Q0 & _ & Qm & r & _ & _ & _ & E)|((A1 & A2 & _) & ns & kept & _ & E)]]]];
     rewrite E; try reflexivity; try lia.
   - specialize (Q1 Hm). lia.
+  - congruence.
   - specialize (A2 Hm). lia.
 Qed.
 
@@ -1077,21 +1132,37 @@ Lemma reject_conflict b f prev : f_endp f <= 65535 -> (f_mf f = true -> len (f_d
   model_step b f = (VConflict prev (f_endp f), b).
 Proof.
   intros H Ha He Hc. unfold model_step.
-  destruct (add_cases b f) as [[Q E]|[(Q0 & Q1 & Q2 & E)|[(Q0 & Q1 & p & Qe & Q & E)|((A1 & A2 & A3) & ns & kept & _ & E)]]];
+  destruct (add_cases b f) as [[Q E]|[(Q0 & Q1 & Q2 & E)|[(Q0 & Q1 & p & Qe & Q & E)|[(Q0 & Qe & _ & r & _ & _ & _ & E)|((A1 & A2 & A3 & _) & ns & kept & _ & E)]]]];
     rewrite E; try lia.
   - specialize (Ha Q1). lia.
   - rewrite He in Qe. inversion Qe; subst. reflexivity.
+  - congruence.
   - destruct (A3 prev He) as [B1 B2]. destruct Hc as [Hc|[Hm Hc]]; [lia|]. specialize (B2 Hm). lia.
+Qed.
+
+(* the reject the repair of F8 added: the total length is still unknown and a
+   final fragment ends below the largest section end *)
+Lemma reject_late_end b f r : f_endp f <= 65535 -> b_end b = None -> f_mf f = false ->
+  In r (b_sections b) -> (forall r', In r' (b_sections b) -> r_end r' <= r_end r) ->
+  f_endp f < r_end r ->
+  model_step b f = (VConflict (r_end r) (f_endp f), b).
+Proof.
+  intros H He Hm Hr Hmax Hc. unfold model_step.
+  destruct (add_cases b f) as [[Q E]|[(Q0 & Q1 & Q2 & E)|[(Q0 & Q1 & p & Qe & Q & E)|[(Q0 & Qe & _ & r0 & Hr0 & Hmax0 & _ & E)|((A1 & A2 & A3 & A4) & ns & kept & _ & E)]]]];
+    rewrite E; try lia; try congruence.
+  - specialize (Hmax r0 Hr0). specialize (Hmax0 r Hr). replace (r_end r0) with (r_end r) by lia. reflexivity.
+  - specialize (A4 He Hm r Hr). lia.
 Qed.
 
 Lemma accept_ok b f : accepts b f -> exists b', model_step b f = (VOk, b').
 Proof.
-  intros (A1 & A2 & A3). unfold model_step.
-  destruct (add_cases b f) as [[Q E]|[(Q0 & Q1 & Q2 & E)|[(Q0 & Q1 & p & Qe & Q & E)|(_ & ns & kept & _ & E)]]];
+  intros (A1 & A2 & A3 & A4). unfold model_step.
+  destruct (add_cases b f) as [[Q E]|[(Q0 & Q1 & Q2 & E)|[(Q0 & Q1 & p & Qe & Q & E)|[(Q0 & Qe & Qm & r & Hr & _ & Q & E)|(_ & ns & kept & _ & E)]]]];
     rewrite E.
   - lia.
   - specialize (A2 Q1). lia.
   - destruct (A3 p Qe) as [B1 B2]. destruct Q as [Q|[Qm Q]]; [lia|]. specialize (B2 Qm). lia.
+  - specialize (A4 Qe Qm r Hr). lia.
   - eauto.
 Qed.
 (* ---------- P: the pool ---------- *)
@@ -1236,7 +1307,7 @@ Qed.
 Lemma model_step_ok b f b' : model_step b f = (VOk, b') -> add b f = AddOk b'.
 Proof.
   unfold model_step. intros H.
-  destruct (add_cases b f) as [[_ E]|[(_ & _ & _ & E)|[(_ & _ & p & _ & _ & E)|(_ & ns & kept & _ & E)]]];
+  destruct (add_cases b f) as [[_ E]|[(_ & _ & _ & E)|[(_ & _ & p & _ & _ & E)|[(_ & _ & _ & r & _ & _ & _ & E)|(_ & ns & kept & _ & E)]]]];
     rewrite E in *; try discriminate. inversion H. reflexivity.
 Qed.
 
@@ -1247,11 +1318,10 @@ Lemma consistent_add P hs ipn d s f : len P <= 65535 -> Forall (frag_of P) hs ->
   add (model_run (buf_new ipn d s) hs) f = AddOk (model_run (buf_new ipn d s) (hs ++ [f])).
 Proof.
   intros HP F Ff.
-  destruct (spec_run_consistent P HP hs [] spec_new (SInv_new P) F) as (S & L & _). cbn [app] in S.
-  destruct (refines_gen hs (buf_new ipn d s) spec_new (Rel_new ipn d s) L) as [_ R].
+  destruct (spec_run_consistent P HP hs [] spec_new (SInv_new P) F) as (S & _). cbn [app] in S.
+  destruct (refines_gen hs (buf_new ipn d s) spec_new (Rel_new ipn d s)) as [_ R].
   destruct (spec_step_consistent P hs _ f HP S Ff) as [Hv _].
-  assert (Hl : is_late (fst (spec_add (spec_run spec_new hs) f)) = false) by (rewrite Hv; reflexivity).
-  destruct (sim_step _ _ f R Hl) as [Hm _]. rewrite Hv in Hm.
+  destruct (sim_step _ _ f R) as [Hm _]. rewrite Hv in Hm.
   apply model_step_ok. rewrite model_run_snoc.
   destruct (model_step (model_run (buf_new ipn d s) hs) f) as [v b'] eqn:E. cbn [fst snd] in *. subst v. reflexivity.
 Qed.
@@ -1408,14 +1478,14 @@ Proof.
       destruct (is_complete b') eqn:C; cbn [fst snd res_ok sinv]; [|auto].
       split; [apply complete_data_no_None; assumption|exact Logic.I].
     + cbn [fst snd sinv]. split; [|exact I].
-      destruct (add_cases b (k_frag k)) as [[_ H]|[(_ & _ & _ & H)|[(_ & _ & p & _ & _ & H)|(_ & ns & kept & _ & H)]]];
+      destruct (add_cases b (k_frag k)) as [[_ H]|[(_ & _ & _ & H)|[(_ & _ & p & _ & _ & H)|[(_ & _ & _ & r & _ & _ & _ & H)|(_ & ns & kept & _ & H)]]]];
         rewrite H in E; inversion E; exact Logic.I.
   - pose proof (add_never_panics (buf_new (k_ipn k) [] []) (k_frag k)) as NP.
     destruct (add (buf_new (k_ipn k) [] []) (k_frag k)) as [b'|v|] eqn:E; [| |congruence].
     + cbn [fst snd res_ok sinv]. split; [exact Logic.I|].
       apply (add_preserves_Inv _ _ b' (Inv_new _ _ _) E).
     + cbn [fst snd sinv]. split; [|exact Logic.I].
-      destruct (add_cases (buf_new (k_ipn k) [] []) (k_frag k)) as [[_ H]|[(_ & _ & _ & H)|[(_ & _ & p & _ & _ & H)|(_ & ns & kept & _ & H)]]];
+      destruct (add_cases (buf_new (k_ipn k) [] []) (k_frag k)) as [[_ H]|[(_ & _ & _ & H)|[(_ & _ & p & _ & _ & H)|[(_ & _ & _ & r & _ & _ & _ & H)|(_ & ns & kept & _ & H)]]]];
         rewrite H in E; inversion E; exact Logic.I.
 Qed.
 
@@ -1432,28 +1502,296 @@ Proof. rewrite isolation. apply stream_trace_ok. exact Logic.I. Qed.
 Lemma passthrough p k ts : is_fragmenting (k_frag k) = false -> process p k ts = (PNone, p).
 Proof. intros H. unfold process. rewrite H. reflexivity. Qed.
 
-(* ---------- finding F8: the witness ---------- *)
-Lemma f8_witness :
-  let a := mkFrag 0 true [0;1;2;3;4;5;6;7;8;9;10;11;12;13;14;15] in
-  let z := mkFrag 1 false [170;187;204;221] in
-  KnownClass [a; z] /\
-  model_trace (buf_new 17 [] []) [a; z] <> spec_trace spec_new [a; z] /\
-  map (fun o : obs => (fst (fst o), snd (fst o))) (model_trace (buf_new 17 [] []) [a; z])
-    = [(VOk, false); (VOk, true)] /\
-  option_map (@length _) (snd (last (model_trace (buf_new 17 [] []) [a; z]) (VOk, false, None)))
-    = Some 12%nat /\
-  map (fun o : obs => fst (fst o)) (model_trace (buf_new 17 [] []) [z; a]) = [VOk; VConflict 12 16].
+(* ---------- two facts about the repaired add that explain equivalent mutants ---------- *)
+(* while the total length is unknown, the largest section end IS the data length
+   (so comparing the final fragment's end with data.len() gives the same answer) *)
+Lemma sec_max_is_len b : Inv b -> b_end b = None ->
+  match sec_max (b_sections b) with
+  | Some m => m = len (b_data b)
+  | None => len (b_data b) = 0
+  end.
 Proof.
-  cbv zeta. split; [vm_compute; reflexivity|]. split; [vm_compute; discriminate|].
-  split; [vm_compute; reflexivity|]. split; vm_compute; reflexivity.
+  intros I Ee. pose proof (sec_max_spec (b_sections b)) as SM.
+  destruct (inv_len b I) as (L1 & L2 & _).
+  destruct (sec_max (b_sections b)) as [m|].
+  - destruct SM as [SM1 (r & Hr & SM2)]. specialize (L1 r Hr).
+    destruct L2 as [L2|(r0 & Hr0 & L2)]; [lia|]. specialize (SM1 r0 Hr0). lia.
+  - rewrite SM in L2. destruct L2 as [L2|(r0 & [] & _)]. exact L2.
 Qed.
 
-(* ---------- statements as used in Props/C11.v ---------- *)
-Lemma refines h ipn d s : ~ KnownClass h ->
-  model_trace (buf_new ipn d s) h = spec_trace spec_new h.
+(* an accepted final fragment never shortens the data: after growth and copy the
+   data already has length `end`, the closing set_len(end) changes nothing *)
+Lemma final_set_len_noop b f : Inv b -> accepts b f -> f_mf f = false ->
+  len (written b f) = f_endp f /\ take (f_endp f) (written b f) = written b f.
 Proof.
-  intros H. apply (refines_gen h (buf_new ipn d s) spec_new (Rel_new ipn d s)).
-  apply Bool.not_true_is_false. exact H.
+  intros I (A1 & A2 & A3 & A4) Hm.
+  destruct (inv_len b I) as (L1 & L2 & L3).
+  assert (Hl : len (written b f) = f_endp f).
+  { rewrite len_written. destruct (b_end b) as [E0|] eqn:Ee.
+    - destruct (A3 E0 eq_refl) as [_ Q]. specialize (Q Hm). rewrite (proj1 (L3 E0 eq_refl)). lia.
+    - destruct L2 as [L2|(r & Hr & L2)]; [lia|]. specialize (A4 eq_refl Hm r Hr). lia. }
+  split; [exact Hl|]. rewrite <- Hl. apply take_all.
+Qed.
+
+(* ---------- the former finding F8: regression ---------- *)
+(* [0,16) non-final and [8,12) final: whichever comes second is rejected, with the
+   values the repaired crate reports, and the buffer stays as it was *)
+Lemma f8_regression :
+  let a := mkFrag 0 true [0;1;2;3;4;5;6;7;8;9;10;11;12;13;14;15] in
+  let z := mkFrag 1 false [170;187;204;221] in
+  let ba := model_run (buf_new 17 [] []) [a] in
+  let bz := model_run (buf_new 17 [] []) [z] in
+  LateEndClass [a; z] /\
+  model_step ba z = (VConflict 16 12, ba) /\
+  model_step bz a = (VConflict 12 16, bz) /\
+  model_trace (buf_new 17 [] []) [a; z] = [(VOk, false, None); (VConflict 16 12, false, None)] /\
+  spec_trace spec_new [a; z] = [(VOk, false, None); (VConflict 16 12, false, None)] /\
+  model_trace (buf_new 17 [] []) [z; a] = [(VOk, false, None); (VConflict 12 16, false, None)] /\
+  spec_trace spec_new [z; a] = [(VOk, false, None); (VConflict 12 16, false, None)].
+Proof. cbv zeta. repeat split; vm_compute; reflexivity. Qed.
+
+(* variants: several stored sections (the maximum is reported, not the last one
+   nor the data length of an earlier state), an overlapping final fragment, and a
+   final fragment that ends exactly at the maximum, which is accepted *)
+Lemma f8_variants :
+  let s0 := mkFrag 0 true [1;2;3;4;5;6;7;8] in
+  let s4 := mkFrag 4 true [41;42;43;44;45;46;47;48] in
+  let s2 := mkFrag 2 true [21;22;23;24;25;26;27;28] in
+  let b := model_run (buf_new 6 [] []) [s0; s4; s2] in
+  b_sections b = [mkRange 0 8; mkRange 32 40; mkRange 16 24] /\
+  model_step b (mkFrag 3 false [9;9;9]) = (VConflict 40 27, b) /\
+  model_step b (mkFrag 4 false [9;9;9;9;9;9;9]) = (VConflict 40 39, b) /\
+  fst (model_step b (mkFrag 4 false [9;9;9;9;9;9;9;9])) = VOk /\
+  fst (model_step b (mkFrag 5 false [])) = VOk /\
+  fst (model_step b (mkFrag 5 false [7])) = VOk /\
+  map (fun o : obs => fst o)
+      (model_trace (buf_new 6 [] []) [mkFrag 0 true [0;1;2;3;4;5;6;7;8;9;10;11;12;13;14;15];
+                                      mkFrag 1 false [170;187;204;221;1;2;3;4]])
+    = [(VOk, false); (VOk, true)].
+Proof. cbv zeta. repeat split; vm_compute; reflexivity. Qed.
+
+(* ---------- statements as used in Props/C11.v ---------- *)
+Lemma refines h ipn d s :
+  model_trace (buf_new ipn d s) h = spec_trace spec_new h.
+Proof. apply (refines_gen h (buf_new ipn d s) spec_new (Rel_new ipn d s)). Qed.
+
+(* ---------- order independence of the verdict (what F8 violated) ---------- *)
+Definition okobs (o : obs) : Prop := fst (fst o) = VOk.
+
+(* the Spec state after the accepted fragments hs *)
+Record JInv (hs : list frag) (st : rstate) : Prop := mkJ {
+  j_hi_ge : forall g, In g hs -> f_endp g <= hi (s_frags st);
+  j_hi_in : hi (s_frags st) = 0 \/ exists g, In g hs /\ f_endp g = hi (s_frags st);
+  j_end : match s_end st with
+          | Some E => hi (s_frags st) <= E /\ exists g, In g hs /\ f_mf g = false /\ f_endp g = E
+          | None => forall g, In g hs -> f_mf g = true
+          end;
+  j_frags : forall o d, In (o, d) (s_frags st) <-> exists g, In g hs /\ o = f_off g /\ d = f_data g
+}.
+
+Lemma JInv_new : JInv [] spec_new.
+Proof.
+  constructor; cbn.
+  - intros g [].
+  - left. reflexivity.
+  - intros g [].
+  - intros o d. split; [intros []|intros (g & [] & _)].
+Qed.
+
+Lemma consistent_nil : consistent [].
+Proof. split; [constructor|intros f g []]. Qed.
+
+Lemma consistent_incl l l' : consistent l -> (forall x, In x l' -> In x l) -> consistent l'.
+Proof.
+  intros [F H] Hin. split.
+  - rewrite Forall_forall in *. intros x Hx. apply F, Hin, Hx.
+  - intros f g Hf Hg. apply H; apply Hin; assumption.
+Qed.
+
+Lemma consistent_snoc hs f : consistent (hs ++ [f]) <->
+  consistent hs /\ frag_wf f /\
+  (forall g, In g hs -> f_mf g = false -> f_endp f <= f_endp g) /\
+  (f_mf f = false -> forall g, In g hs -> f_endp g <= f_endp f).
+Proof.
+  unfold consistent. rewrite Forall_app. split.
+  - intros [[F1 F2] H]. inversion F2 as [|x l Wf _]; subst.
+    assert (Hf : In f (hs ++ [f])) by (apply in_or_app; right; left; reflexivity).
+    split; [split; [exact F1|]|split; [exact Wf|split]].
+    + intros a b Ha Hb. apply H; apply in_or_app; left; assumption.
+    + intros g Hg Hm. apply (H g f); [apply in_or_app; left; exact Hg|exact Hf|exact Hm].
+    + intros Hm g Hg. apply (H f g); [exact Hf|apply in_or_app; left; exact Hg|exact Hm].
+  - intros ([F1 H1] & Wf & H2 & H3). split; [split; [exact F1|constructor; [exact Wf|constructor]]|].
+    intros a b Ha Hb Hm. apply in_app_or in Ha. apply in_app_or in Hb.
+    destruct Ha as [Ha|[Ha|[]]]; destruct Hb as [Hb|[Hb|[]]]; subst.
+    + apply H1; assumption.
+    + apply H2; assumption.
+    + apply H3; assumption.
+    + lia.
+Qed.
+
+Lemma JInv_push hs st f e' : JInv hs st ->
+  match e' with
+  | Some E => N.max (f_endp f) (hi (s_frags st)) <= E /\
+              exists g, In g (hs ++ [f]) /\ f_mf g = false /\ f_endp g = E
+  | None => forall g, In g (hs ++ [f]) -> f_mf g = true
+  end ->
+  JInv (hs ++ [f]) (mkR ((f_off f, f_data f) :: s_frags st) e').
+Proof.
+  intros J He.
+  pose proof (j_hi_ge _ _ J) as J1. pose proof (j_hi_in _ _ J) as J2.
+  assert (Hf : In f (hs ++ [f])) by (apply in_or_app; right; left; reflexivity).
+  constructor; cbn [s_frags s_end hi]; fold (f_endp f).
+  - intros g Hg. apply in_app_or in Hg. destruct Hg as [Hg|[Hg|[]]].
+    + specialize (J1 g Hg). lia.
+    + subst g. lia.
+  - right. destruct (N.max_spec (f_endp f) (hi (s_frags st))) as [[Hlt Q]|[Hge Q]].
+    + destruct J2 as [J2|(g & Hg & J2)]; [lia|]. exists g. split; [apply in_or_app; left; exact Hg|lia].
+    + exists f. split; [exact Hf|lia].
+  - destruct e' as [E|]; exact He.
+  - intros o d. split.
+    + intros [Q|Q].
+      * inversion Q; subst. exists f. auto.
+      * apply (j_frags _ _ J) in Q. destruct Q as (g & Hg & Q). exists g. split; [apply in_or_app; left; exact Hg|exact Q].
+    + intros (g & Hg & Ho & Hd). apply in_app_or in Hg. destruct Hg as [Hg|[Hg|[]]].
+      * right. apply (j_frags _ _ J). exists g. auto.
+      * subst. left. reflexivity.
+Qed.
+
+(* one delivery is accepted exactly when it keeps the accepted set consistent *)
+Lemma spec_step_ok hs st f : JInv hs st -> consistent hs ->
+  (fst (spec_add st f) = VOk <-> consistent (hs ++ [f])) /\
+  (fst (spec_add st f) = VOk -> JInv (hs ++ [f]) (snd (spec_add st f))).
+Proof.
+  intros J C. rewrite consistent_snoc.
+  pose proof (j_hi_ge _ _ J) as J1. pose proof (j_hi_in _ _ J) as J2. pose proof (j_end _ _ J) as J3.
+  assert (Hf : In f (hs ++ [f])) by (apply in_or_app; right; left; reflexivity).
+  unfold spec_add, frag_wf, MAX_DEFRAG_LEN. cbv zeta.
+  destruct (N.ltb_spec 65535 (f_endp f)) as [H1|H1].
+  { cbn [fst snd]. split; [split; [discriminate|intros (_ & (W & _) & _); lia]|discriminate]. }
+  destruct (f_mf f) eqn:Em; cbn [andb negb].
+  - destruct (N.eqb_spec (len (f_data f) mod 8) 0) as [H2|H2]; cbn [negb].
+    2:{ cbn [fst snd]. split; [split; [discriminate|intros (_ & (_ & W) & _); specialize (W eq_refl); lia]|discriminate]. }
+    destruct (s_end st) as [E|] eqn:Ee.
+    + rewrite orb_false_r. destruct J3 as [J3a (g0 & Hg0 & Hg0m & Hg0e)].
+      destruct (N.ltb_spec E (f_endp f)) as [H3|H3]; cbn [fst snd].
+      * split; [split; [discriminate|]|discriminate]. intros (_ & _ & H & _). specialize (H g0 Hg0 Hg0m). lia.
+      * split.
+        -- split; [intros _|reflexivity]. split; [exact C|]. split; [split; [exact H1|auto]|]. split; [|discriminate].
+           intros g Hg Hm. destruct C as [_ C]. pose proof (C g g0 Hg Hg0 Hm). lia.
+        -- intros _. apply JInv_push; [exact J|]. split; [lia|]. exists g0. split; [apply in_or_app; left; exact Hg0|auto].
+    + cbn [fst snd]. split.
+      * split; [intros _|reflexivity]. split; [exact C|]. split; [split; [exact H1|auto]|]. split; [|discriminate].
+        intros g Hg Hm. rewrite (J3 g Hg) in Hm. discriminate.
+      * intros _. apply JInv_push; [exact J|]. intros g Hg. apply in_app_or in Hg.
+        destruct Hg as [Hg|[Hg|[]]]; [apply J3, Hg|subst g; exact Em].
+  - destruct (s_end st) as [E|] eqn:Ee.
+    + destruct J3 as [J3a (g0 & Hg0 & Hg0m & Hg0e)].
+      destruct (N.ltb_spec E (f_endp f)) as [H3|H3]; cbn [orb].
+      * cbn [fst snd]. split; [split; [discriminate|]|discriminate]. intros (_ & _ & H & _). specialize (H g0 Hg0 Hg0m). lia.
+      * destruct (N.eqb_spec (f_endp f) E) as [H4|H4]; cbn [negb fst snd].
+        -- split.
+           ++ split; [intros _|reflexivity]. split; [exact C|]. split; [split; [exact H1|discriminate]|]. split.
+              ** intros g Hg Hm. destruct C as [_ C]. pose proof (C g g0 Hg Hg0 Hm). lia.
+              ** intros _ g Hg. specialize (J1 g Hg). lia.
+           ++ intros _. apply JInv_push; [exact J|]. split; [lia|]. exists g0. split; [apply in_or_app; left; exact Hg0|auto].
+        -- split; [split; [discriminate|]|discriminate]. intros (_ & _ & H & H').
+           specialize (H g0 Hg0 Hg0m). specialize (H' eq_refl g0 Hg0). lia.
+    + destruct (N.ltb_spec (f_endp f) (hi (s_frags st))) as [H3|H3]; cbn [fst snd].
+      * split; [split; [discriminate|]|discriminate]. intros (_ & _ & _ & H').
+        destruct J2 as [J2|(g & Hg & J2)]; [lia|]. specialize (H' eq_refl g Hg). lia.
+      * split.
+        -- split; [intros _|reflexivity]. split; [exact C|]. split; [split; [exact H1|discriminate]|]. split.
+           ++ intros g Hg Hm. rewrite (J3 g Hg) in Hm. discriminate.
+           ++ intros _ g Hg. specialize (J1 g Hg). lia.
+        -- intros _. apply JInv_push; [exact J|]. split; [lia|]. exists f. auto.
+Qed.
+
+Lemma spec_all_ok : forall h hs st, JInv hs st -> consistent hs ->
+  (Forall okobs (spec_trace st h) <-> consistent (hs ++ h)) /\
+  (consistent (hs ++ h) -> JInv (hs ++ h) (spec_run st h)).
+Proof.
+  induction h as [|f h IH]; intros hs st J C.
+  - rewrite app_nil_r. cbn [spec_trace]. split; [split; [intros _; exact C|constructor]|intros _; exact J].
+  - destruct (spec_step_ok hs st f J C) as [S1 S2].
+    cbn [spec_trace]. unfold spec_run. cbn [fold_left].
+    destruct (spec_add st f) as [v st'] eqn:Es. cbn [fst snd] in *.
+    assert (Hsub : consistent (hs ++ f :: h) -> consistent (hs ++ [f])).
+    { intros Q. apply (consistent_incl _ _ Q). intros x Hx. apply in_app_or in Hx.
+      apply in_or_app. destruct Hx as [Hx|[Hx|[]]]; [left; exact Hx|right; left; exact Hx]. }
+    replace (hs ++ f :: h) with ((hs ++ [f]) ++ h) in * by (rewrite <- app_assoc; reflexivity).
+    split; [split|].
+    + intros F. inversion F as [|x l Hv Ft]; subst. unfold okobs, spec_obs in Hv. cbn [fst] in Hv.
+      pose proof (proj1 S1 Hv) as C'. apply (IH (hs ++ [f]) st' (S2 Hv) C'). exact Ft.
+    + intros Q. pose proof (Hsub Q) as C'. pose proof (proj2 S1 C') as Hv.
+      constructor; [unfold okobs, spec_obs; cbn [fst]; exact Hv|].
+      apply (IH (hs ++ [f]) st' (S2 Hv) C'). exact Q.
+    + intros Q. pose proof (Hsub Q) as C'. pose proof (proj2 S1 C') as Hv.
+      apply (IH (hs ++ [f]) st' (S2 Hv) C'). exact Q.
+Qed.
+
+Lemma JInv_complete hs st : JInv hs st -> consistent hs -> (spec_complete st = true <-> GCovered hs).
+Proof.
+  intros J C. rewrite spec_complete_iff. pose proof (j_end _ _ J) as J3. unfold GCovered. split.
+  - intros (E & HE & Hall). rewrite HE in J3. destruct J3 as [_ (g0 & Hg0 & Hg0m & Hg0e)].
+    exists g0. split; [exact Hg0|]. split; [exact Hg0m|]. intros i Hi. rewrite Hg0e in Hi.
+    destruct (Hall i Hi) as [v Hv]. destruct (lookup_covers _ _ _ Hv) as (o & d & Hin & Hc & _).
+    apply (j_frags _ _ J) in Hin. destruct Hin as (g & Hg & Ho & Hd). subst o d.
+    exists g. split; [exact Hg|]. unfold covers in Hc. apply andb_true_iff in Hc. destruct Hc as [C1 C2].
+    apply N.leb_le in C1. apply N.ltb_lt in C2. unfold f_endp. lia.
+  - intros (f & Hf & Hfm & Hall). destruct (s_end st) as [E|].
+    + destruct J3 as [_ (g0 & Hg0 & Hg0m & Hg0e)]. exists E. split; [reflexivity|]. intros i Hi.
+      destruct C as [_ C]. pose proof (C f g0 Hf Hg0 Hfm). pose proof (C g0 f Hg0 Hf Hg0m).
+      destruct (Hall i) as (g & Hg & Hr); [lia|].
+      apply (covers_lookup _ (f_off g) (f_data g)).
+      * apply (j_frags _ _ J). exists g. auto.
+      * unfold covers. apply andb_true_iff. split; [apply N.leb_le; lia|apply N.ltb_lt; unfold f_endp in Hr; lia].
+    + rewrite (J3 f Hf) in Hfm. discriminate.
+Qed.
+
+(* every delivery of h is accepted  <=>  h is a consistent set of fragments *)
+Lemma all_ok_iff h ipn d s :
+  Forall okobs (model_trace (buf_new ipn d s) h) <-> consistent h.
+Proof.
+  rewrite refines. apply (spec_all_ok h [] spec_new JInv_new consistent_nil).
+Qed.
+
+Lemma consistent_perm h1 h2 : Permutation h1 h2 -> consistent h1 -> consistent h2.
+Proof.
+  intros HP C. apply (consistent_incl _ _ C). intros x Hx.
+  apply (Permutation_in x (Permutation_sym HP) Hx).
+Qed.
+
+Lemma GCovered_perm h1 h2 : Permutation h1 h2 -> GCovered h1 -> GCovered h2.
+Proof.
+  intros HP (f & Hf & Hm & Hall). exists f. split; [apply (Permutation_in f HP Hf)|]. split; [exact Hm|].
+  intros i Hi. destruct (Hall i Hi) as (g & Hg & Hr). exists g. split; [apply (Permutation_in g HP Hg)|exact Hr].
+Qed.
+
+(* a consistent set, in any order: complete exactly when the set covers [0, end) *)
+Lemma consistent_complete h ipn d s : consistent h ->
+  (is_complete (model_run (buf_new ipn d s) h) = true <-> GCovered h).
+Proof.
+  intros C.
+  destruct (refines_gen h (buf_new ipn d s) spec_new (Rel_new ipn d s)) as [_ R].
+  rewrite (complete_agree _ _ R).
+  destruct (spec_all_ok h [] spec_new JInv_new consistent_nil) as [_ J]. cbn [app] in J.
+  apply (JInv_complete h _ (J C) C).
+Qed.
+
+Lemma order_independent h1 h2 ipn d s : Permutation h1 h2 ->
+  (Forall okobs (model_trace (buf_new ipn d s) h1) <-> Forall okobs (model_trace (buf_new ipn d s) h2)) /\
+  (Forall okobs (model_trace (buf_new ipn d s) h1) ->
+     is_complete (model_run (buf_new ipn d s) h1) = is_complete (model_run (buf_new ipn d s) h2)).
+Proof.
+  intros HP. rewrite !all_ok_iff. split.
+  - split; apply consistent_perm; [exact HP|apply Permutation_sym, HP].
+  - intros C1. pose proof (consistent_perm _ _ HP C1) as C2.
+    pose proof (consistent_complete h1 ipn d s C1) as Q1.
+    pose proof (consistent_complete h2 ipn d s C2) as Q2.
+    destruct (is_complete (model_run (buf_new ipn d s) h1)); destruct (is_complete (model_run (buf_new ipn d s) h2));
+      try reflexivity.
+    + assert (Q : false = true); [|discriminate]. apply Q2, (GCovered_perm _ _ HP), Q1. reflexivity.
+    + assert (Q : false = true); [|discriminate]. apply Q1, (GCovered_perm _ _ (Permutation_sym HP)), Q2. reflexivity.
 Qed.
 
 Lemma any_order_prefix P h k ipn d0 s0 : len P <= 65535 -> Forall (frag_of P) h ->
